@@ -334,17 +334,23 @@ Qed.
 Lemma run_cons_fst a r m : fst (run (a :: r) m) = fst (run r (fst (step a m))).
 Proof. simpl. destruct (step a m) as [m1 e1]. simpl. destruct (run r m1); reflexivity. Qed.
 
+Lemma other_stream_invisible' a i m :
+  fst m = None -> stream_of a <> i -> view i (fst (step a m)) = view i m.
+Proof. destruct m as [g [w ss]]. simpl. intros -> H. apply other_stream_invisible. exact H. Qed.
+
+Lemma readers_isolated' : forall sched i m,
+  fst m = None -> Forall (fun a => stream_of a <> i) sched -> view i (fst (run sched m)) = view i m.
+Proof.
+  induction sched as [|a r IH]; intros i m Hg HF; [reflexivity|].
+  inversion HF; subst. rewrite run_cons_fst.
+  rewrite IH; [apply other_stream_invisible'; assumption | rewrite step_global; exact Hg | exact H2].
+Qed.
+
 (* for every interleaving: a schedule made only of other streams' actions,
    however long, never changes anything stream i can see *)
 Theorem readers_isolated : forall sched i w ss,
   Forall (fun a => stream_of a <> i) sched ->
   view i (fst (run sched (None, (w, ss)))) = view i (None, (w, ss)).
-Proof.
-  induction sched as [|a r IH]; intros i w ss HF; [reflexivity|].
-  inversion HF; subst. rewrite run_cons_fst.
-  pose proof (other_stream_invisible a i w ss H1) as Hv. pose proof (step_global a (None, (w, ss))) as Hg.
-  destruct (fst (step a (None, (w, ss)))) as [g1 [w1 ss1]]. simpl in Hg. subst g1.
-  rewrite (IH i w1 ss1 H2). exact Hv.
-Qed.
+Proof. intros. apply readers_isolated'; [reflexivity | assumption]. Qed.
 
 End Proofs.
